@@ -566,7 +566,11 @@ func runChild(ck *Check, tier string, seed int64, sp batchSpec, nb int, outdir s
 	}
 	cmd := exec.Command(bin, "child", ck.ID, tier, strconv.FormatInt(seed, 10), strconv.Itoa(sp.idx), strconv.Itoa(nb), outdir, strconv.Itoa(only), raceArg)
 	cmd.Stdout, cmd.Stderr = of, of
-	cmd.Env = append(os.Environ(), "GORACE=halt_on_error=0 history_size=2", "GOTRACEBACK=all")
+	// every temp file of the child lives below the driver's own temp directory, which the driver
+	// removes on exit even when the child was killed
+	ctmp := filepath.Join(outdir, fmt.Sprintf("tmp-b%d", sp.idx))
+	os.MkdirAll(ctmp, 0o755)
+	cmd.Env = append(os.Environ(), "GORACE=halt_on_error=0 history_size=2", "GOTRACEBACK=all", "TMPDIR="+ctmp)
 	cmd.SysProcAttr = &syscall.SysProcAttr{Setpgid: true}
 	err := cmd.Start()
 	if err != nil {
